@@ -30,7 +30,7 @@ VARIABLES prog,   \* the program (constant after Init)
           cbs,    \* sequence of tags whose completion callback was scheduled
           dlog,   \* history: every update() call  <<dest, who, x, md, callno, ownfail>>
           elog,   \* history: every _emit() call   <<node, x, md, callno>>
-          flushes,\* history: flushes[k] = <<node, Len(dlog) at the time>>
+          flushes,\* history: flushes[k] = <<node, Len(dlog) at the time, callno>>
           calls,  \* number of public calls so far
           failed, \* set of callnos whose emit raised
           nfail   \* number of injected failures so far
@@ -433,7 +433,7 @@ Flush(n, failAt) ==
         c2 == IF c1.fail THEN c1
               ELSE [ReleaseMd(c1, s.md, 1) EXCEPT !.nst[n] = [cache |-> <<>>, md |-> <<>>]]
     IN /\ Commit(c2)
-       /\ flushes' = Append(flushes, <<n, Len(dlog)>>)
+       /\ flushes' = Append(flushes, <<n, Len(dlog), calls + 1>>)
        /\ nfail' = nfail + Cardinality(failAt)
        /\ UNCHANGED prog
 
@@ -460,7 +460,9 @@ Out(n) == LET es == SelectSeq(elog, LAMBDA e : e[1] = n)
 X(d)  == d[3]
 MD(d) == d[4]
 Who(d) == d[2]
-Aborted(n) == \E i \in 1 .. Len(dlog) : dlog[i][1] = n /\ dlog[i][6] = "down"
+\* cut short by a failure further downstream (a delivery, or a flush of a collect node)
+Aborted(n) == \/ \E i \in 1 .. Len(dlog) : dlog[i][1] = n /\ dlog[i][6] = "down"
+              \/ \E i \in 1 .. Len(flushes) : flushes[i][1] = n /\ flushes[i][3] \in failed
 
 RECURSIVE ScanC(_, _, _)      \* accumulate: nd, state (option), remaining inputs
 ScanC(nd, st, ins) ==
@@ -690,20 +692,23 @@ MetadataFlat == \A i \in 1 .. Len(dlog) : \A j \in 1 .. Len(dlog[i][4]) : dlog[i
 
 \* tags that were part of a delivery that raised
 FailedTags == {t \in Tags : \E i \in 1 .. Len(dlog) : dlog[i][6] # "ok" /\ InSeq(dlog[i][4], t)}
+\* tags that passed through a node whose processing was cut short by a downstream failure: what that
+\* node still holds is not described by its list-level contract any more
+AbortedTags == {t \in Tags : \E i \in 1 .. Len(dlog) : Aborted(dlog[i][1]) /\ InSeq(dlog[i][4], t)}
 UsedTags == {t \in RefTags : \E i \in 1 .. Len(dlog) : InSeq(dlog[i][4], t)}
 
 RECURSIVE SumHeld(_, _)
 SumHeld(n, t) == IF n = 0 THEN 0 ELSE CountIn(HeldMd(n), t) + SumHeld(n - 1, t)
 
 \* C05 (every state of SyncFlow is quiescent): count == number of legitimate holders
-RcBalanced == \A t \in RefTags \ FailedTags : rc[t] = SumHeld(Len(prog), t)
+RcBalanced == \A t \in (RefTags \ FailedTags) \ AbortedTags : rc[t] = SumHeld(Len(prog), t)
 RcNonNegative == \A t \in RefTags : rc[t] >= 0
 \* C05: callback scheduled exactly once, exactly for the elements that have left
-CbExact == \A t \in UsedTags \ FailedTags :
+CbExact == \A t \in (UsedTags \ FailedTags) \ AbortedTags :
               /\ CountIn(cbs, t) <= 1
               /\ (CountIn(cbs, t) = 1) <=> (rc[t] = 0)
 \* C04 (synchronous part): never signalled while still held
-CbSafe == \A t \in RefTags : InSeq(cbs, t) => SumHeld(Len(prog), t) = 0
+CbSafe == \A t \in RefTags \ AbortedTags : InSeq(cbs, t) => SumHeld(Len(prog), t) = 0
 \* C16: a failed element is never checkpointed
 NeverCheckpointFailed == \A t \in FailedTags : ~InSeq(cbs, t)
 \* C05: a count that reached zero never rises again
